@@ -94,6 +94,7 @@ func cmdCheck(args []string) int {
 	solver := fs.String("solver", "z3", "solver binary")
 	smode := fs.String("solvermode", "incremental", "incremental|reset")
 	ib := fs.Int("incrms", 30, "incremental solver budget per query in ms before falling back to a fresh solve")
+	inputsF := fs.String("inputs", "", "replay file: force these inputs (concrete engine run for debugging)")
 	qt := fs.Int("qt", 0, "per-query solver timeout in seconds (override)")
 	wallF := fs.Int("wall", 0, "per-harness wall budget in seconds (override)")
 	if len(args) == 0 {
@@ -107,6 +108,19 @@ func cmdCheck(args []string) int {
 	}
 	if *tier == "" {
 		*tier = "quick"
+	}
+	if *inputsF != "" {
+		data, err := os.ReadFile(*inputsF)
+		if err != nil {
+			fmt.Fprintln(os.Stderr, err)
+			return 2
+		}
+		var rf struct {
+			Case ReplayCase `json:"case"`
+		}
+		json.Unmarshal(data, &rf)
+		forcedInputs = rf.Case.Inputs
+		*only = rf.Case.Harness
 	}
 	solverMode = *smode
 	incrBudgetMs = int64(*ib)
